@@ -10,6 +10,7 @@ import (
 	"strings"
 	"sync"
 	"syscall"
+	"time"
 
 	"github.com/tonistiigi/fsutil"
 	"github.com/tonistiigi/fsutil/types"
@@ -38,6 +39,7 @@ type memFS struct {
 	walkHookAt    int          // call walkHook when the walk reaches entry k (1-based; 0 = never)
 	walkHook      func()       // e.g. cancels the context of the Send call only
 	openGate      func(string) // called in Open (may block)
+	readDelay     time.Duration
 }
 
 func unixTypeBits(t string) uint32 {
@@ -71,6 +73,10 @@ func newMemFS(ents []TreeEntry, log *evLog) *memFS {
 			}
 			st = src.st.Clone()
 			st.Path = e.Path
+			if e.LinkMtime != 0 {
+				// a walk is not atomic: the inode was touched between the lstat of its first name and the lstat of this one
+				st.ModTime = e.LinkMtime
+			}
 			if os.FileMode(st.Mode)&os.ModeSymlink == 0 {
 				st.Linkname = e.Link
 			}
@@ -204,6 +210,9 @@ func (r *memReader) Read(b []byte) (int, error) {
 		fs.readN++
 	}
 	fs.mu.Unlock()
+	if fs.readDelay > 0 && r.off == 0 {
+		time.Sleep(fs.readDelay) // a slow medium: requests pile up in the sender while its workers wait for the first bytes
+	}
 	if failKey == r.path && r.off >= failOff {
 		return 0, errors.New("verif: injected read failure")
 	}
